@@ -368,6 +368,13 @@ class SymExec:
                 # a copy of strlen(x)+1 bytes of x carries its terminator
                 src = expr_str(strip_casts(args[1]))
                 nul = n.t.get('strlen(%s)' % src) == 1 and n.c == 1
+                lit = strip_casts(args[1])
+                if lit.get('k') == 'str' and not n.t:
+                    # a literal copied together with its terminator (memcpy(p, "..", sizeof("..")))
+                    if n.c > len(lit['bytes']) + 1:
+                        self.ob('OUT2', c, 'memcpy reads %s bytes from a literal of %d' % (n.c, len(lit['bytes']) + 1), False,
+                                'reads past the literal', 'memcpy-lit:%d' % c['loc'][0])
+                    nul = (n.c == len(lit['bytes']) + 1) or (n.c >= 1 and n.c <= len(lit['bytes']) and lit['bytes'][n.c - 1] == 0)
                 self.write(st, c, p, n, nul, 'memcpy of %s bytes' % n)
         elif cn == 'sprintf' and args:
             p = self.ptr_pos(args[0], st)
